@@ -32,6 +32,8 @@ func main() {
 			resp = doScan(rq.Body)
 		case "counts":
 			resp = doCounts(rq.Body)
+		case "parse":
+			resp = doParse(rq.Body)
 		case "output":
 			resp = doOutput(rq.Body)
 		case "human":
